@@ -209,7 +209,9 @@ func (tc *typechecker) convert(ti *typeInfo, expr ast.Expression, t2 reflect.Typ
 		switch expr := expr.(type) {
 
 		case *ast.UnaryOperator:
-			return tc.convert(tc.compilation.typeInfos[expr.Expr], expr.Expr, typ)
+			// The expression is not a constant, even if its operands are.
+			_, err := tc.convert(tc.compilation.typeInfos[expr.Expr], expr.Expr, typ)
+			return nil, err
 
 		case *ast.BinaryOperator:
 			if op := expr.Operator(); op == ast.OperatorLeftShift || op == ast.OperatorRightShift {
@@ -226,7 +228,8 @@ func (tc *typechecker) convert(ti *typeInfo, expr ast.Expression, t2 reflect.Typ
 			if err != nil {
 				return nil, err
 			}
-			return tc.convert(tc.compilation.typeInfos[expr.Expr2], expr.Expr2, typ)
+			_, err = tc.convert(tc.compilation.typeInfos[expr.Expr2], expr.Expr2, typ)
+			return nil, err
 
 		default:
 			panic(internalError("unexpected expr %s (type %T) with type info %s", expr, expr, ti))
